@@ -111,7 +111,7 @@ def single_rotation_check(rec, cls, detail, g):
         y = G.T @ g
         rec.units(t, "SingleRotationMapsToReal", units(max(float(np.max(np.abs(y[1:]))), abs(abs(float(y[0])) - nrm)), max(nrm, 1e-300), 4))
     if len(outs) == 2:
-        rec.flag(t, "CallingFormsAgree", bool(np.array_equal(outs[0], outs[1])))
+        rec.flag(t, "CallingFormsAgree", bool(np.max(np.abs(outs[0] - outs[1])) <= 1e-13))     # same rotation to rounding
 
 
 def hess_check(rec, cls, detail, Hf):
